@@ -57,6 +57,112 @@ def gen_case(rng, names, quick=True):
         o['min_tx_length'] = rng.choice(lens) + rng.choice([0, 0, 1, -1])
     return dict(world=w, opts=o)
 
+# ------------------------------------------------------------------ canonical-collision stream
+# Non-coding transcripts of random DNA almost never produce a peptide that is also canonical, so the clause
+# "minus the canonical pool" would go untested.  This stream adds to each world lncRNA genes whose ORFs (one per
+# reading frame) are assembled from fragments COPIED from the canonical pool of the same world: whole canonical
+# peptides (Met-initial ones first, so that M+X is canonical while X need not be), canonical peptides behind a new
+# initiator Met (so that the Met-removed form is canonical), canonical peptides extended / truncated by one residue,
+# I/L-swapped copies.  Canonical peptides must then be absent and their non-canonical neighbours present.
+AA20 = 'ACDEFGHIKLMNPQRSTVWY'
+
+def _variant(rng, P):
+    x = rng.random()
+    if x < 0.40 or len(P) < 4:
+        return P
+    if x < 0.50:
+        return P[:-1] + rng.choice(AA20) + P[-1]           # extended by one residue before the C-terminal site
+    if x < 0.60:
+        return P[:-2] + P[-1]                              # truncated by one residue
+    if x < 0.70:
+        return rng.choice(AA20) + P                        # extended at the N-terminus
+    if x < 0.80:
+        return P[1:]                                       # truncated at the N-terminus
+    if x < 0.95 and ('I' in P or 'L' in P):                # I/L swapped (the pool holds the I->L image)
+        i = rng.choice([k for k, ch in enumerate(P) if ch in 'IL'])
+        return P[:i] + ('L' if P[i] == 'I' else 'I') + P[i + 1:]
+    return P
+
+def seeded_orf(rng, canon):
+    met = [p for p in canon if p.startswith('M') and len(p) > 3]
+    met_x = [p for p in met if p[1:] not in canon]         # M+X canonical, X not canonical
+    first = rng.random()
+    if met_x and first < 0.45:
+        orf = rng.choice(met_x)
+    elif met and first < 0.65:
+        orf = rng.choice(met)
+    else:
+        orf = 'M' + rng.choice(canon)                      # Met-removed form is the canonical peptide
+    for _ in range(rng.randint(1, 3)):
+        orf += _variant(rng, rng.choice(canon))
+    if rng.random() < 0.5:
+        orf += G.rand_protein(rng, rng.randint(1, 6))
+    return orf.replace('U', 'C').replace('X', 'A').replace('*', '')
+
+def add_lnc_gene(w, rng, tx_dna, n):
+    """append a lncRNA gene with transcript sequence tx_dna on a chromosome of its own (1-2 exons, either strand)"""
+    strand = rng.choice([1, -1])
+    L = len(tx_dna)
+    pad5, pad3 = rng.randint(5, 20), rng.randint(5, 20)
+    if L > 30 and rng.random() < 0.6:
+        cut = rng.randint(10, L - 10)
+        intron = G.rand_dna(rng, rng.randint(3, 25))
+        pieces = [tx_dna[:cut], tx_dna[cut:]]
+    else:
+        intron, pieces = '', [tx_dna]
+    plus = G.rand_dna(rng, pad5)
+    exons = []
+    for i, pc in enumerate(pieces):
+        exons.append([len(plus), len(plus) + len(pc)])
+        plus += pc
+        if i < len(pieces) - 1:
+            plus += intron
+    plus += G.rand_dna(rng, pad3)
+    if strand == -1:
+        tot = len(plus)
+        plus = G.revcomp(plus)
+        exons = sorted([[tot - e, tot - s_] for s_, e in exons])
+    cname = 'chr9%d' % n      # must look like a GENCODE chromosome name to the tool's source inferrer
+    w['chroms'][cname] = plus
+    tx = {'id': 'ENST%011d.1' % (9000000 + n * 10), 'protein_id': None, 'exons': exons, 'cds': None, 'frame': 0, 'tags': [],
+          'sec': [], 'utr': False, 'biotype': 'lncRNA'}
+    g = {'id': 'ENSG%011d.1' % (9000000 + n), 'name': 'SEED%d' % n, 'chrom': cname, 'strand': strand, 'biotype': 'lncRNA',
+         'transcripts': [tx], 'start': exons[0][0], 'end': exons[-1][1]}
+    w['genes'].append(g)
+    assert G.tx_seq(w, g, tx) == tx_dna
+
+def gen_seeded_cases(rng, names, n):
+    """two phases: worlds + options, one oracle call for the canonical pools, then the seeded genes"""
+    base = []
+    for _ in range(n):
+        w = G.gen_world(rng, small=True, coding_p=rng.choice([0.7, 1.0]), bias='KRKRPMMWDEFLCI', max_genes=3)
+        o = gen_opts(rng, names)
+        o['rule'] = rng.choice(['trypsin'] * 6 + ['lysc', 'arg-c', 'lysn', 'glutamyl endopeptidase', 'chymotrypsin high specificity'])
+        o['exc'] = 'trypsin_exception' if (o['rule'] == 'trypsin' and rng.random() < 0.3) else None
+        o.update(inclusion=None, exclusion=None, min_tx_length=21, min_len=rng.choice([4, 5, 7]), max_len=rng.choice([25, 40]),
+                 mw4=rng.choice([0, 3000000]) + rng.randrange(0, 10000))
+        o['min_mw'] = o['mw4'] / 10000.0 + 0.00005
+        base.append(dict(world=w, opts=o))
+    pools = O.call_parallel([('pool', [c['opts']['rule'], c['opts']['exc'],
+                                       [c['opts']['k'], c['opts']['mw4'], c['opts']['min_len'], c['opts']['max_len']],
+                                       prot_rows(c['world'])]) for c in base], jobs=8)
+    out = []
+    for c, pl in zip(base, pools):
+        if isinstance(pl, str) or pl[0] == 1:
+            continue
+        canon = sorted(set(O.U(p) for p in pl[1]))
+        canon = [p for p in canon if 'U' not in p]
+        if not canon:
+            continue
+        for gi in range(rng.choice([1, 1, 2])):
+            parts = [G.rand_dna(rng, rng.randint(0, 8))]
+            for f in range(3):
+                parts.append(G.backtranslate(rng, seeded_orf(rng, canon)) + rng.choice(['TAA', 'TAG', 'TGA']) + rng.choice('ACGT'))
+            add_lnc_gene(c['world'], rng, ''.join(parts), gi + 1)
+        c['seeded'] = True
+        out.append(c)
+    return out
+
 # ------------------------------------------------------------------ model side
 def tx_rows(w):
     rows, ids = [], []
@@ -228,6 +334,29 @@ def evaluate(ctx, cases, tag='c08'):
                 res['mechanism'] = 'selection behaves like the unrepaired loop (coding transcripts processed without --coding-novel-orf)'
     return out
 
+def measure_collisions(cases):
+    """on seeded cases: candidates removed by the canonical pool, and obliged Met-removed forms X whose M+X is canonical"""
+    if not cases:
+        return {}
+    reqs = []
+    for c in cases:
+        reqs.append(model_req(c, 1))
+        r2 = list(model_req(c, 1)[1]); r2[5] = []          # same specification with an EMPTY pool
+        reqs.append(('c08_novel', r2))
+    ms = O.call_parallel(reqs, jobs=8)
+    st = dict(cases=len(cases), cases_with_pool_hit=0, candidates_removed_by_pool=0, obliged_X_with_canonical_MX=0, cases_with_such_X=0)
+    for i, c in enumerate(cases):
+        a, b = decode_model(c, ms[2 * i]), decode_model(c, ms[2 * i + 1])
+        if a is None or b is None:
+            continue
+        removed = b['may'] - a['may']
+        st['candidates_removed_by_pool'] += len(removed)
+        st['cases_with_pool_hit'] += 1 if removed else 0
+        mx = [x for x in a['must'] if ('M' + x) in removed]
+        st['obliged_X_with_canonical_MX'] += len(mx)
+        st['cases_with_such_X'] += 1 if mx else 0
+    return st
+
 def violations_of(results, limit=12):
     v = []
     for r in results:
@@ -303,7 +432,11 @@ def run(ctx):
             if c['opts']['rule'] != 'trypsin':
                 c['opts']['exc'] = None
             cases.append(c)
+    seeded = gen_seeded_cases(rng, names, 250 if ctx.quick else 8000)
+    cases += seeded
     results = evaluate(ctx, cases)
+    # how much work the clause "minus the canonical pool" does on the collision stream (measured, for the evidence)
+    collide = measure_collisions(seeded[:200 if ctx.quick else 1500])
     # shrink the first untagged failure and the first of each finding class
     seen = set()
     for r in results:
@@ -349,13 +482,17 @@ def run(ctx):
                      'ORF listed and a non-empty obliged (MUST) peptide set; distinct by full case',
                 samples=[dict(opts=c['opts'], n_genes=len(c['world']['genes'])) for c in cases[:3]],
                 distribution=dist, failures=sum(1 for r in results if r['probs']),
+                streams={'random_worlds+option_corners': len(cases) - len(seeded), 'canonical_collision': len(seeded)},
+                canonical_collision_stream=collide,
                 bracket_slack={'output_minus_MUST': slack_low, 'MAY_minus_output': slack_high, 'total_output': tot_out,
                                'total_MUST': tot_must, 'total_MAY': tot_may},
                 corpus=[f for f, _ in corp], violations=v, engine_tied_by='correspondence',
                 assumptions=['DNA over A/C/G/T (a codon outside the standard table would be X)',
                              'mass thresholds are placed off the 1e-4 grid so the float comparison cannot differ from the exact one',
-                             'N-terminal-Met-removed forms of novel-ORF products, the in-frame reading of the cleavage context and W>F images '
-                             'of canonical products are conventions the property text is silent about: they are in MAY only',
+                             'ADOPTED CONVENTION (tool rule, logged in docs/C08.md): digestion of a novel ORF includes the N-terminal-Met-removed '
+                             'form of every product that starts at the ORF start, as for canonical proteins (C10); these forms are OBLIGED',
+                             'the in-frame reading of the cleavage context and W>F images of canonical products are conventions the property '
+                             'text is silent about: they are in MAY only',
                              'the ORF FASTA is compared with the listing of EVERY ATG-initiated ORF of every processed transcript '
                              '(the tool also lists ORFs no surviving peptide is attributed to; attributed ORFs must be listed)'],
                 trusted_base=['harness/lib/gen_reference.py (world generator and its own codon table, used for the independent ORF check)',
